@@ -204,3 +204,9 @@ Inductive att_content_flip (a : attachment) (data : bytes) : attachment -> bytes
 | ACF_create q1 x y q2 :
     u64 (a_create a) = q1 ++ x :: q2 -> x <> y ->
     att_content_flip a data (att_with a (a_log a) (unle (q1 ++ y :: q2)) (a_name a) (a_media a)) data.
+
+(* the one way a damaged chunk can end the read with io.EOF: the decoder itself reports a clean end
+   (or io.EOF as its error) without having delivered a single byte *)
+Definition codec_reports_eof (lo : lopts) (dstream : doracle) (k : chunk) (recs' : bytes) : Prop :=
+  let cs := chunk_stream lo dstream (k_comp k) recs' None in
+  snd cs = Some EEOF \/ (snd cs = None /\ fst cs = []).
